@@ -1,4 +1,5 @@
 import Mutagen.Proofs.Handles
+import Mutagen.Generated.SourceFacts
 /-!
 # C17 — synchronization never reaches outside the root through in-root symbolic links
 
@@ -525,5 +526,15 @@ theorem name_check_is_necessary :
 example : ((({} : Opener).openFile exFS "link/canary/secret").2.1 = .error .isLink) ∧
     ((({} : Opener).openFile exFS "f").2.1 = .ok 5) := by
   constructor <;> rfl
+
+/-- The modelling assumption "every open is `openat(…, O_NOFOLLOW)`" is checked
+against the source on every run: `Mutagen.SourceFacts.fsDirectoryOpenFlags` is
+regenerated from the body of `(*Directory).open` (directory_posix.go; the
+operand names of the `|`-expression assigned to `flags`). A rewrite that
+checks the type first and opens without `O_NOFOLLOW` (a check/open race) breaks
+this obligation; the `race` cases of the C17 stream then search for the escape
+with a concurrent directory↔link flipper. -/
+theorem open_flags_never_follow : "O_NOFOLLOW" ∈ Mutagen.SourceFacts.fsDirectoryOpenFlags := by
+  decide
 
 end Mutagen.Properties.C17
